@@ -14,10 +14,10 @@ package vecnet
 // are true by definition and are written where the proof needs the instance. streamAt(k) (assumed.spec): byte k of the
 // stream behind the reader; a Read delivers the next n bytes of it,
 // 0 <= n <= len(p), n chosen by the transport.
-//@ constglobal readFromBuffers = func:readFromBuffersLinux [C17,C02]
+//@ constglobal readFromBuffers = func:readFromBuffersLinux [C17,C02,C11]
 //
 //@ group fits
-//@   requires[C17,C02] @buffer-list-fits len(bufs) <= 1000000 && sumlens(bufs) <= 1099511627776 && forall(k, 0, len(bufs) + 1, sumlens(bufs, k) <= 1099511627776)
+//@   requires[C17,C02,C11] @buffer-list-fits len(bufs) <= 1000000 && sumlens(bufs) <= 1099511627776 && forall(k, 0, len(bufs) + 1, sumlens(bufs, k) <= 1099511627776)
 //
 // Generic io.Reader path: proved against the body, including where every byte
 // lands (stated over absolute indices k of each buffer's backing array:
@@ -41,7 +41,8 @@ package vecnet
 // with unsafe pointers) is outside the generator's subset: its contract is
 // ASSUMED - it consumes at most sumlens(bufs) bytes of the stream, at least one
 // when it reports no error. What readFromBuffersLinux is proved to do with
-// that: it never indexes past the buffer list, it accounts for every byte
+// that (C17, C02, and C11 - a client ReadAt/WriteAt is one operation only if
+// every byte of its frames is accounted for): it never indexes past the buffer list, it accounts for every byte
 // recvmsg reports while it advances the iovec list in place, it terminates,
 // and it succeeds only when it has consumed exactly the total length. That
 // the bytes land at the right places on this path is NOT decided
@@ -55,12 +56,12 @@ package vecnet
 //@ func readFromBuffersLinux
 //@   use fits
 //@   modifies arrays(byte), arrays([]byte), $consumed
-//@   ensures[C17,C02] @counts-what-it-consumed result0 >= 0 && int(result0) <= old(sumlens(bufs0)) && (result1 == nil ==> ghost("$consumed", int) == old(ghost("$consumed", int)) + int(result0))
-//@   ensures[C02,C17,C18] @success-means-every-buffer-is-full result1 == nil ==> int(result0) == old(sumlens(bufs0))
+//@   ensures[C17,C02,C11] @counts-what-it-consumed result0 >= 0 && int(result0) <= old(sumlens(bufs0)) && (result1 == nil ==> ghost("$consumed", int) == old(ghost("$consumed", int)) + int(result0))
+//@   ensures[C02,C11,C17,C18] @success-means-every-buffer-is-full result1 == nil ==> int(result0) == old(sumlens(bufs0))
 //@   assumed_ensures[C17] @bytes-land-in-stream-order result1 == nil ==> forall(i, 0, len(bufs0), forall(j, 0, len(old(bufs0[i])), old(bufs0[i])[j] == streamAt(old(ghost("$consumed", int)) + old(sumlens(bufs0, i)) + j)))
-//@   loop 0 invariant[C17,C02] 0 <= rangeindex + 1 && rangeindex + 1 <= len(bufs) && int(length) == sumlens(bufs, rangeindex + 1) && length >= 0 && sumsnoc(bufs, rangeindex + 1)
-//@   loop 1 invariant[C17,C02] 0 <= n && int(n) + sumlens(bufs) == int(length) && int(length) == old(sumlens(bufs0)) && ghost("$consumed", int) == old(ghost("$consumed", int)) + int(n) && len(bufs) <= 1000000 && sumcons(bufs)
-//@   loop 1 decreases[C17] int(length) - int(n)
-//@   loop 2 invariant[C17,C02] 0 <= consumed && consumed <= cur && sumlens(bufs) + consumed == int(length) - int(n) + cur && len(bufs) <= 1000000 && int(length) == old(sumlens(bufs0)) && ghost("$consumed", int) == old(ghost("$consumed", int)) + int(n) && sumcons(bufs)
-//@   safety[C17,C02]
+//@   loop 0 invariant[C17,C02,C11] 0 <= rangeindex + 1 && rangeindex + 1 <= len(bufs) && int(length) == sumlens(bufs, rangeindex + 1) && length >= 0 && sumsnoc(bufs, rangeindex + 1)
+//@   loop 1 invariant[C17,C02,C11] 0 <= n && int(n) + sumlens(bufs) == int(length) && int(length) == old(sumlens(bufs0)) && ghost("$consumed", int) == old(ghost("$consumed", int)) + int(n) && len(bufs) <= 1000000 && sumcons(bufs)
+//@   loop 1 decreases[C17,C11] int(length) - int(n)
+//@   loop 2 invariant[C17,C02,C11] 0 <= consumed && consumed <= cur && sumlens(bufs) + consumed == int(length) - int(n) + cur && len(bufs) <= 1000000 && int(length) == old(sumlens(bufs0)) && ghost("$consumed", int) == old(ghost("$consumed", int)) + int(n) && sumcons(bufs)
+//@   safety[C17,C02,C11]
 //@   nopanic
